@@ -37,7 +37,8 @@ def plan(tier, seed):
             cases.append({"kind": "equiv", "reaction": {"kind": "fixture", "name": name[:-4]}, "seed": int(rng.integers(1 << 30)), "cost": 8.0})
     n_syn = 60 if tier == "quick" else 800
     for k in range(n_syn):
-        desc = {"kind": "synth", "seed": int(rng.integers(1 << 30)), "n_final": [2, 3, 3, 4, 3, 4, 3, 5][k % 8], "max_spin2": 4 if k % 3 else 6}
+        desc = {"kind": "synth", "seed": int(rng.integers(1 << 30)), "n_final": [2, 3, 3, 4, 3, 4, 3, 5][k % 8], "max_spin2": 4 if k % 3 else 6,
+                "shuffle_names": k % 4 >= 2}
         cases.append({"kind": "sign", "reaction": desc, "naming": k % 4, "seed": int(rng.integers(1 << 30)), "cost": 2.5})
         if k % 2 == 0:
             cases.append({"kind": "equiv", "reaction": desc, "seed": int(rng.integers(1 << 30)), "cost": 6.0})
@@ -55,7 +56,7 @@ def _synth(desc, formalism):
     rng = np.random.default_rng([desc["seed"]])
     for attempt in range(40):
         spec = R.synth_spec(rng, n_final=desc["n_final"], formalism="helicity", max_spin2=desc["max_spin2"], parity_mode="all" if attempt % 3 else "some",
-                            allow_massless=False, max_transitions=120)
+                            allow_massless=False, max_transitions=120, shuffle_names=bool(desc.get("shuffle_names")))
         spec["l_max"] = 10
         if not spec["parity_nodes"]:
             continue
@@ -175,9 +176,15 @@ def run_case(case, rec, ctx):
                     continue
                 n_pairs += 1
                 ok = a["sign"] is not None and b["sign"] is not None and a["sign"] * b["sign"] == expected
-                pattern = (tuple(etas[n] for n in constrained), tuple(flips))
+                def _name_order_differs(n):
+                    ids = sorted(a["tr"].topology.get_edge_ids_outgoing_from_node(n))
+                    names = [a["tr"].states[i].particle.name for i in ids]
+                    return names != sorted(names)
+                name_vs_id = any(_name_order_differs(n) for n in flips)
+                pattern = (tuple(etas[n] for n in constrained), tuple(flips), name_vs_id)
                 rec.case(pattern, (feats["unlike_eta"] and len(constrained) >= 2) or len(g) >= 3,
-                         n_constrained=len(constrained), n_flipped=len(flips), unlike_eta=feats["unlike_eta"])
+                         n_constrained=len(constrained), n_flipped=len(flips), unlike_eta=feats["unlike_eta"],
+                         daughter_name_order_differs_from_id_order=name_vs_id)
                 rec.check(ok, "parity_sign",
                           f"{label}: chains {_cs(a['tr'])} and {_cs(b['tr'])} share {[str(s) for s in coeff]} and differ by reversing the daughter helicities at node(s) {flips}; "
                           f"their relative sign is {None if a['sign'] is None or b['sign'] is None else a['sign'] * b['sign']} but prod eta over the flipped nodes = {expected} "
